@@ -734,7 +734,7 @@ func c20Loops(c *Check) {
 				}
 				advPt := func(pt Pt) bool {
 					nd := pt.Node()
-					if nd == nil || !posIn(fs.Body, nd.Pos()) {
+					if nd == nil || !within(fs.Body, nd) {
 						return false
 					}
 					for _, call := range callsAt(nd) {
@@ -945,7 +945,7 @@ func c20Post(c *Check) {
 			// an error of the recursive call is returned
 			for _, pt := range r.F.Points() {
 				for _, call := range callsAt(pt.Node()) {
-					if callee(info, call) == self && posIn(l.Body, call.Pos()) {
+					if callee(info, call) == self && within(l.Body, call) {
 						if found, wv, decided := r.OnErr(pt, call, false, func(q Pt) bool { return r.IsSuccessReturn(q) || r.F.IterEnd(l)(q) && !r.F.IsExitPt(q) }, nil); !decided || found {
 							msg = "an error while expanding a child is dropped: " + wv
 						}
